@@ -73,6 +73,10 @@ def build_model(timeout=600):
     out = os.path.join(BUILD, "extract")
     os.makedirs(out, exist_ok=True)
     exe = os.path.join(out, "model_run")
+    # extraction reads the compiled files: they must be current with the sources the stamp hashes
+    ok, log_ = build_coq(targets=["Run/Runner.vo"])
+    if not ok:
+        raise RuntimeError("coq build of Run/Runner.vo failed:\n" + log_[-3000:])
     with flock("extract"):
         stamp_src = sha("".join(open(os.path.join(COQ, f)).read() for f in coq_files()
                                 if not f.startswith(("Props/", "Lemmas/"))) +
